@@ -41,18 +41,34 @@ LoopT(given, ts, remaining, lastClose, out) ==
        ELSE LoopT(given, ts + 1, remaining - 1, Find(given, ts)[3], Append(out, Find(given, ts)))
 ImplFillTruthy(given, start, end) == LoopT(given, start, (end - start) + 1, NoClose, <<>>)
 
-\* ---- property (given: strictly increasing timestamps, non-empty) ------------------------------
+\* named deviation (NOT the code): the per-minute search replaced by a cursor that assumes an ascending batch
+RECURSIVE LoopC(_, _, _, _, _, _)
+LoopC(given, ts, remaining, started, cur, out) ==
+  IF remaining <= 0 THEN out
+  ELSE IF cur <= Len(given) /\ given[cur][1] = ts THEN LoopC(given, ts + 1, remaining - 1, TRUE, cur + 1, Append(out, given[cur]))
+  ELSE IF started THEN LoopC(given, ts + 1, remaining - 1, TRUE, cur, Append(out, FlatAt(ts, Last(out)[3])))
+  ELSE LoopC(given, ts + 1, remaining - 1, FALSE, cur, Append(out, FlatAt(ts, given[1][2])))
+ImplFillCursor(given, start, end) == LoopC(given, start, (end - start) + 1, FALSE, 1, <<>>)
+
+\* ---- property.  The batch is ANY non-empty list of candles: unsorted, a minute delivered twice, candles outside
+\* the interval.  Contract (what the search-based function does): a minute for which a candle was provided keeps that
+\* candle - of several candles with the same timestamp the FIRST one in the list; every other minute is flat at the
+\* previous close; before any provided minute of the interval it is flat at the open of the first candle of the list
+\* (the earliest candle's open is accepted as well) ------------------------------
 Inside(given, start, end) == {j \in 1..Len(given) : given[j][1] >= start /\ given[j][1] <= end}
 FillVerdict(given, start, end, out) ==
   LET n == end - start + 1 IN
   IF Len(out) # n THEN "not-one-candle-per-minute-of-the-interval"
   ELSE IF \E k \in 1..n : out[k][1] # start + k - 1 THEN "timestamps-not-strictly-one-minute-apart"
-  ELSE IF \E j \in Inside(given, start, end) : out[given[j][1] - start + 1] # given[j] THEN "provided-candle-changed"
+  ELSE IF \E j \in Inside(given, start, end) : out[given[j][1] - start + 1] # Find(given, given[j][1])
+       THEN (IF \E j \in Inside(given, start, end) : out[given[j][1] - start + 1][7] = 0 THEN "provided-candle-replaced-by-a-filler"
+             ELSE "provided-candle-changed")
   ELSE IF \E k \in 1..n : Matches(given, start + k - 1) = {} /\
-            Core(out[k]) # Core(FlatAt(start + k - 1,
-                                IF \E j \in Inside(given, start, end) : given[j][1] < start + k - 1
-                                THEN out[k - 1][3]            \* previous close
-                                ELSE given[1][2]))            \* first known open
+            LET ts == start + k - 1
+                earliest == given[CHOOSE j \in 1..Len(given) : \A jj \in 1..Len(given) : given[j][1] <= given[jj][1]]
+            IN IF \E j \in Inside(given, start, end) : given[j][1] < ts
+               THEN Core(out[k]) # Core(FlatAt(ts, out[k - 1][3]))                      \* previous close
+               ELSE Core(out[k]) \notin {Core(FlatAt(ts, given[1][2])), Core(FlatAt(ts, earliest[2]))}   \* first known open
        THEN "missing-minute-not-flat-at-previous-close"
   ELSE "ok"
 
